@@ -102,3 +102,15 @@ Inductive check_valid (s : cell_state) : outcome unit -> Prop :=
 Definition per_frame (s : cell_state) : Prop :=
   match lengths s with Some l => length l = n_frames s | None => True end /\
   match angles s with Some a => length a = n_frames s | None => True end.
+
+(* ---- the same guards as a computable table over what the guards look at (used by the runs: the implementation's error
+   class on generated states is compared with this table, evaluated by vm_compute).
+   hl / ha: lengths / angles stored; nl / na: some stored length / angle is negative.  0 = passes, 1 = AttributeError,
+   2 = ValueError.  FrameProofs.check_valid_code_spec ties it to [check_valid]. *)
+Definition check_valid_code (hl ha nl na : bool) : nat :=
+  if andb hl (negb ha) then 1%nat else if andb (negb hl) ha then 1%nat
+  else if andb hl nl then 2%nat else if andb ha na then 2%nat else 0%nat.
+Definition outcome_code {A} (o : outcome A) : nat :=
+  match o with Val _ => 0%nat | ErrAttribute => 1%nat | ErrValue => 2%nat | ErrType => 3%nat end.
+(* unitcell_volumes: 0 = None, 3 = TypeError, 4 = one number per frame *)
+Definition volumes_code (hl ha : bool) : nat := if negb hl then 0%nat else if ha then 4%nat else 3%nat.
